@@ -412,8 +412,13 @@ def programs_part(chk, cfg, tier):
         ran["panic"] += 1 if obs.get("run_panic") else 0
         if c["verdict"] == "ok" and not obs.get("run_panic"):
             chk.traces += 1
+        if r.get("timeout"):
+            # no result within the deadline: an endless or exploding loop of the program that the
+            # guards did not cut (not a crash of the host); counted, not a verdict
+            ran["timeouts"] = ran.get("timeouts", 0) + 1
+            continue
         if not r["ok"]:
-            if r.get("crash") or r.get("timeout"):
+            if r.get("crash"):
                 d = "vm-crash: " + d
             small = {k: v for k, v in c.items() if k != "allow"}
             chk.mismatch(c["class"], d, {"case": dict(small, allow=c["allow"] if len(c["allow"]) < 400 else {}), "result": r})
